@@ -58,7 +58,14 @@ type c09State struct {
 	// how the files sit in the file system: "" plain, "hard-linked" (a second name elsewhere, as a dotfiles checkout or a backup
 	// tool makes), "symlinked" (the configuration path is a relative symbolic link into a sibling directory)
 	Layout string
+	// the files were last written days ago (the usual state of a notebook)
+	Aged bool
+	// extra environment of the runs (TMPDIR on another file system)
+	Env []string
 }
+
+// c09Env: the extra environment of the runs of the state in hand.
+var c09Env []string
 
 func c09Notebook(n int) []byte {
 	if n == 0 {
@@ -126,6 +133,13 @@ func (s c09State) prepare(h *Home) {
 			}
 		}
 	}
+	if s.Aged {
+		then := time.Now().Add(-75 * time.Hour)
+		for _, p := range []string{h.Personal(), h.History(), filepath.Dir(h.Personal()), filepath.Dir(h.History())} {
+			os.Chtimes(p, then, then)
+		}
+	}
+	c09Env = s.Env
 }
 
 var c09TidRe = regexp.MustCompile(`^(\d+)\s+([a-z0-9_]+)\(`)
@@ -178,7 +192,20 @@ func c09RunSys(ctx *Ctx, h *Home, op c09Op, k int64, sys string, n int, traceOut
 	}
 	argv = append(argv, ctx.Wtf)
 	argv = append(argv, op.Args...)
-	return h.RunCmd(60*time.Second, nil, argv...)
+	return h.RunCmd(60*time.Second, c09Env, argv...)
+}
+
+// c09OtherVolume: a directory on a file system other than the one that holds dir (the memory-backed /dev/shm), for TMPDIR.
+func c09OtherVolume(ctx *Ctx, dir string) string {
+	var a, b syscall.Stat_t
+	if syscall.Stat("/dev/shm", &a) != nil || syscall.Stat(dir, &b) != nil || a.Dev == b.Dev {
+		return ""
+	}
+	d := fmt.Sprintf("/dev/shm/wtfverif_c09_%d_%d", os.Getpid(), ctx.Shard)
+	if os.MkdirAll(d, 0o755) != nil {
+		return ""
+	}
+	return d
 }
 
 func engineCrashWrite(ctx *Ctx) {
@@ -215,6 +242,15 @@ func engineCrashWrite(ctx *Ctx) {
 		c09State{Name: "notebook-5KB/history-100/symlinked", Notebook: c09Notebook(25), History: c09History(100), Layout: "symlinked"})
 	// a notebook of several hundred KiB (years of use): whatever is done differently for large files is reached only here
 	states = append(states, c09State{Name: "notebook-330KB/history-2", Notebook: c09Notebook(1500), History: c09History(2)})
+	// files last written three days ago
+	states = append(states, c09State{Name: "notebook-2KB/history-10/written-days-ago", Notebook: c09Notebook(10), History: c09History(10), Aged: true})
+	// the directory for temporary files ($TMPDIR) is on another file system than the configuration directory (tmpfs /tmp, disk /home)
+	if tmp := c09OtherVolume(ctx, base); tmp != "" {
+		defer os.RemoveAll(tmp)
+		states = append(states, c09State{Name: "notebook-2KB/history-10/TMPDIR-on-another-volume", Notebook: c09Notebook(10), History: c09History(10), Env: []string{"TMPDIR=" + tmp}})
+	} else {
+		ctx.R.Path("no-second-volume-for-TMPDIR", 1)
+	}
 	caseNo := 0
 	mine := func() bool { caseNo++; return caseNo%ctx.NShards == ctx.Shard }
 	for _, op := range ops {
@@ -241,6 +277,12 @@ func engineCrashWrite(ctx *Ctx) {
 				continue
 			}
 			ctx.R.Path("layout:"+map[string]string{"": "plain"}[st.Layout]+st.Layout, 1)
+			if st.Aged {
+				ctx.R.Path("states-written-days-ago", 1)
+			}
+			if st.Env != nil {
+				ctx.R.Path("states-with-TMPDIR-on-another-volume", 1)
+			}
 			oldKey, newKey := "", ""
 			if op.Target == "history" {
 				newKey, _ = c09HistKey(newB)
@@ -492,6 +534,9 @@ func engineCrashWrite(ctx *Ctx) {
 			}
 		}
 	}
+	// Flavour 8: the failing or killed write is not the first of the day: two ordinary saves (searches) succeed first.
+	c09AfterEarlierWrites(ctx, h, mainP, mine)
+	c09Env = nil
 	// Flavour 5: the target is a single-file bind mount from a nearly full volume (docker-style `-v file:file`): the
 	// final rename is refused (EBUSY) and any write *in place* runs out of space after a few bytes. The file must still
 	// be complete-old or complete-new, and a save that did not take effect must say so.
@@ -509,6 +554,159 @@ func engineCrashWrite(ctx *Ctx) {
 		c09InProcess(ctx, base)
 	}
 	ctx.R.Extra["strace_version"] = strings.TrimSpace(strings.SplitN(runOut("strace", "-V"), "\n", 2)[0])
+}
+
+// c09AfterEarlierWrites: on files last written days ago (and on fresh ones), two ordinary writes succeed, then a third one
+// fails after k bytes or is killed at a system call: the file holds the complete content the second write left, or the complete
+// content of the third - in particular everything saved by the first two is still there.
+func c09AfterEarlierWrites(ctx *Ctx, h *Home, mainP string, mine func() bool) {
+	type scen struct {
+		target  string
+		earlier []c09Op
+		last    c09Op
+	}
+	scens := []scen{
+		{"notebook", []c09Op{
+			{"save", []string{"save", "--", "echo first-today", "the first command saved today"}, "notebook", "saved successfully"},
+			{"save", []string{"save", "--keywords=two", "--", "echo second-today | sort", "the second command saved today"}, "notebook", "saved successfully"}},
+			c09Op{"save", []string{"save", "--", "echo third-today", "the third command saved today, the one whose write goes wrong"}, "notebook", "saved successfully"}},
+		{"history", []c09Op{
+			{"search", []string{"--database", mainP, "--all-platforms", "--", "compress directory"}, "history", ""},
+			{"search", []string{"--database", mainP, "--all-platforms", "--", "list directory"}, "history", ""}},
+			c09Op{"search", []string{"--database", mainP, "--all-platforms", "--", "directory contents"}, "history", ""}},
+	}
+	for _, aged := range []bool{true, false} {
+		for _, sc := range scens {
+			st := c09State{Name: "notebook-2KB/history-10", Notebook: c09Notebook(10), History: c09History(10), Aged: aged}
+			if aged {
+				st.Name += "/written-days-ago"
+			}
+			target := h.Personal()
+			if sc.target == "history" {
+				target = h.History()
+			}
+			key := func(b []byte) string {
+				if sc.target == "history" {
+					k, ok := c09HistKey(b)
+					if !ok {
+						return "unparsable:" + string(b)
+					}
+					return k
+				}
+				return string(b)
+			}
+			setup := func() ([]byte, bool) {
+				st.prepare(h)
+				for _, op := range sc.earlier {
+					res := c09Run(ctx, h, op, -1, 0, "")
+					if bad, _ := res.Crashed(); bad || (op.OkMsg != "" && !strings.Contains(res.Stdout, op.OkMsg)) {
+						return nil, false
+					}
+				}
+				b, err := os.ReadFile(target)
+				return b, err == nil
+			}
+			old, ok := setup()
+			if !ok {
+				ctx.R.Inconcl("earlier-writes-failed")
+				continue
+			}
+			c09Run(ctx, h, sc.last, -1, 0, "")
+			newB, err := os.ReadFile(target)
+			if err != nil || key(newB) == key(old) {
+				ctx.R.Inconcl("third-write-changed-nothing")
+				continue
+			}
+			counts := map[string]int{}
+			for _, k := range []int64{-1, 0} {
+				setup()
+				tr := filepath.Join(filepath.Dir(mainP), "trace3.txt")
+				os.Remove(tr)
+				c09Run(ctx, h, sc.last, k, 0, tr)
+				tb, _ := os.ReadFile(tr)
+				for name, c := range c09Count(tb) {
+					if c > counts[name] {
+						counts[name] = c
+					}
+				}
+			}
+			verdict := func(cs map[string]interface{}, before []byte, res CLIResult, path string) {
+				got, rerr := os.ReadFile(target)
+				state := "torn"
+				switch {
+				case rerr != nil:
+				case key(got) == key(before):
+					state = "old"
+				case key(got) == key(newB):
+					state = "new"
+				}
+				ctx.R.Path("after-earlier-writes-"+state, 1)
+				if state != "torn" {
+					return
+				}
+				detail := fmt.Sprintf("after two successful writes and a third one that went wrong, %s holds %d bytes: neither what the second write left (%d bytes) nor the complete third content (%d bytes)",
+					filepath.Base(target), len(got), len(before), len(newB))
+				if sc.target == "notebook" {
+					if db, err := database.LoadDatabase(target); err == nil {
+						have := map[string]bool{}
+						for _, c := range db.Commands {
+							have[c.Command] = true
+						}
+						detail += fmt.Sprintf("; it loads with %d entries, first-today present: %v, second-today present: %v", len(db.Commands), have["echo first-today"], have["echo second-today | sort"])
+					} else {
+						detail += "; it no longer loads"
+					}
+				}
+				ctx.R.Violate(vlib.Violation{Property: "C09", Clause: "earlier-entries-lost", Path: path, Detail: detail,
+					Witness: map[string]interface{}{"case": cs, "stdout": vlib.Trunc(res.Stdout, 400), "file_after_quoted": vlib.Q(vlib.Trunc(string(got), 400))}})
+			}
+			L := int64(len(newB))
+			for _, k := range []int64{0, 1, int64(len(old)) / 2, int64(len(old)), int64(len(old)) + 1, L - 1} {
+				if !mine() {
+					continue
+				}
+				cs := map[string]interface{}{"scenario": "two successful writes, then a failing one", "target": sc.target, "state": st.Name, "flavour": "write-fails-after-k-bytes", "k": k}
+				ctx.R.Begin(cs)
+				ctx.R.Eval(1)
+				before, ok := setup()
+				if !ok {
+					ctx.R.Inconcl("earlier-writes-failed")
+					continue
+				}
+				res := c09Run(ctx, h, sc.last, k, 0, "")
+				ctx.R.Nontriv("after-earlier", sc.target, aged, "efbig", k)
+				verdict(cs, before, res, sc.last.Name+"/after-earlier-writes/efbig")
+			}
+			names := make([]string, 0, len(counts))
+			for name := range counts {
+				names = append(names, name)
+			}
+			sort.Strings(names)
+			for _, sys := range names {
+				for n := 1; n <= counts[sys]+1; n++ {
+					if !mine() {
+						continue
+					}
+					cs := map[string]interface{}{"scenario": "two successful writes, then a killed one", "target": sc.target, "state": st.Name, "flavour": "killed-on-entering-nth-call", "syscall": sys, "n": n}
+					ctx.R.Begin(cs)
+					ctx.R.Eval(1)
+					before, ok := setup()
+					if !ok {
+						ctx.R.Inconcl("earlier-writes-failed")
+						continue
+					}
+					res := c09RunSys(ctx, h, sc.last, -1, sys, n, "")
+					if res.Signal != "" || res.RC == 137 {
+						ctx.R.Nontriv("after-earlier", sc.target, aged, sys, n)
+					}
+					verdict(cs, before, res, sc.last.Name+"/after-earlier-writes/kill")
+				}
+			}
+			if aged {
+				ctx.R.Path("after-earlier-writes-on-files-written-days-ago", 1)
+			}
+		}
+	}
 }
 
 func runOut(name string, args ...string) string {
